@@ -77,7 +77,7 @@ def record(be, stem, c, header_dict=None):
     if c.get("obs_length") is not None:
         kw.update(obs_length=c["obs_length"], length_mode="obs_length")
     else:
-        kw.update(num_blocks=c["num_blocks"], length_mode="num_blocks")
+        kw.update(num_blocks=c.get("num_blocks"), length_mode=c.get("length_mode", "num_blocks"))
     with quiet():
         be.record(output_file_stem=stem, **kw)
 
